@@ -78,7 +78,7 @@ for l in spec:
     if pre.strip():
         sig = ' ' + pre.strip() + sig
     args = ' '.join(binders(sig))
-    groups.setdefault(prop, []).append('/-- %s -/\ntheorem %s%s :=\n  %s %s\n' % (doc.strip(), new, sig, old, args))
+    groups.setdefault(prop, []).append('/-- %s -/\ntheorem %s%s :=\n  _root_.PySpike.%s %s\n' % (doc.strip(), new, sig, old, args))
 for prop in sorted(groups):
     print('namespace PySpike.%s\nopen PySpike PySpike.C01%s\n' % (prop, '\nopen PySpike.C09 (Op unitVec)\nopen PySpike.B7' if prop == 'C09' and 'B7.run' in ''.join(groups[prop]) else ''))
     print('\n'.join(groups[prop]))
